@@ -54,6 +54,12 @@ claimed["C03"]=dict(
    text="For every token and request: no verification API (KRB5Token / NegTokenInit / NegTokenResp / SPNEGOToken.Verify, AcceptSecContext) reports success or status COMPLETE unless service.VerifyAPREQ accepted the contained AP-REQ, and the context returned carries exactly the accepted credentials; the HTTP wrapper invokes the inner handler only then (or for an established session) with that identity and answers 401 + WWW-Authenticate (or 500 on session-store failure) otherwise.",
    note="Trusted: context.WithValue/Value model, ghost contracts for net/http (Error, Header.Set, Handler.ServeHTTP), external session store.",
    design="4/C03")
+claimed["C08"]=dict(
+   technique="contract-based deductive verification: the RFC string-to-key and key-derivation compositions as spec functions over uninterpreted PBKDF2/HMAC/hash/n-fold primitives, postconditions on the real StringToKey / KDF / GetKeyFromPassword / GenerateEncryptionKey functions with loop invariants for the PA-DATA precedence; discharged by z3/cvc5 via gowp; n-fold itself by a bounded executable stand-in (labelled bounded, not counted as proved)",
+   category="proof",
+   text="For every password, salt, parameter string and PA-DATA sequence the six string-to-key functions equal the RFC 3961/3962/8009/4757 compositions, the RFC 8009 KDF and derive-key functions equal their definitions, GetKeyFromPassword applies the RFC 4120 5.2.7.5 precedence of PA-ETYPE-INFO2 independent of element order, and generated keys have the etype's number and protocol key length. The wrong generated key length for etype 20 is an open known finding, so the evidence level is 'other' until it is repaired. n-fold is covered by a bounded comparison with an independent implementation only.",
+   note="Trusted: uninterpreted PBKDF2/HMAC/hash/hex/UTF-16/n-fold, trusted contracts on Nfold, DES3RandomToKey content and the DR loop, ASN.1 decoders of the PA-DATA.",
+   design="4/C08")
 hooks=subprocess.run("git -C /repo log --format='%H %s' | grep ' verif:' | awk '{print $1}'",shell=True,capture_output=True,text=True).stdout.split()
 m={"version":1,
  "setup_cmd":"./setup.sh",
